@@ -128,6 +128,11 @@ func newReplica(idx int, typ model.TypeOfDatatype, create bool, mode int32) *Rep
 // NewWorld builds the initial state: replica 0 creates the datatype, the others subscribe.
 func NewWorld(p WParams) *World {
 	resetUIDs()
+	if strings.Contains(p.Alpha, "mixid") {
+		uidScript.mu.Lock()
+		uidScript.mixed = true
+		uidScript.mu.Unlock()
+	}
 	w := &World{P: p, typ: typeOf(p.Type)}
 	for i := 0; i < p.N; i++ {
 		var m int32
@@ -135,6 +140,9 @@ func NewWorld(p WParams) *World {
 			m = p.Orders[i]
 		}
 		w.reps = append(w.reps, newReplica(i, w.typ, i == 0, m))
+		if strings.Contains(p.Alpha, "mixid") && i < len(mixedCUIDs) && w.reps[i].cuid != mixedCUIDs[i] {
+			panic(fmt.Sprintf("harness: replica %d has client id %q, the id script expected %q", i, w.reps[i].cuid, mixedCUIDs[i]))
+		}
 	}
 	// The creator pushes its creation snapshot and every subscriber completes its subscription
 	// (receives the log from position 1) before the explored history starts: the real protocol
@@ -443,6 +451,9 @@ func (r *Replica) value(shape string) interface{} {
 		return map[string]interface{}{"a": []interface{}{}, "b": r.tag(), "c": []interface{}{r.tag()}}
 	case "eam":
 		return []interface{}{[]interface{}{}, r.tag(), map[string]interface{}{}, r.tag()}
+	case "k":
+		// the same value every time, on every replica: a write that does not change what the key or slot shows
+		return "same"
 	case "nil":
 		return nil
 	case "tnil":
